@@ -214,7 +214,7 @@ func one(h *harness.H, layer string, c int) {
 	stop := make(chan struct{})
 	finished := make(chan struct{})
 	spawn := func(name string, f func()) {
-		if os.Getenv("VERIF_C09_SEQ") != "" && name != "deleter" && name != "gc" { // exploration knob
+		if ws := os.Getenv("VERIF_C09_WORKERS"); ws != "" && !strings.Contains(","+ws+",", ","+name+",") { // exploration knob
 			return
 		}
 		g := &wg
